@@ -28,7 +28,7 @@ CHECKS = {
         note='Trusted: Lean kernel + Mathlib; the step from edge crossings + first-vertex containment to closed-set truth for simple '
              'polygons is the Jordan argument (assumed; every generated pair is also judged by an exact Fraction set-truth oracle); '
              'collinear-only boundary overlap is documented as unspecified; 1e-10 rounding inert on the dyadic grids used.',
-        technique='Lean 4 proof (segment geometry, sweep invariant, relation laws) + source translator (PolygonBase.contains_shape / intersects_shape regenerated as Lean per argument kind and proved equal to the model) + differential correspondence + exact set-truth oracle',
+        technique='Lean 4 proof (segment geometry, sweep invariant, relation laws) + source translator (PolygonBase.contains_shape / intersects_shape per argument kind, find_line_intersection and the sweep do_edges_intersect regenerated as Lean and proved equal to the model) + differential correspondence + exact set-truth oracle',
         design='§6 C02'),
     'C04': dict(
         text='Lean 4 theorems over a model of the member loops that is parametric in the member-level relations: for all member lists and '
@@ -41,7 +41,7 @@ CHECKS = {
              '(whose correctness is C01/C02); dict.copy/deepcopy modelled as allocation, identity observed with id(). Tied to the code by '
              'correspondence over every 0/1 relation mask of 1-4 members, all member orders, every shape kind as counterpart, exact '
              'bounds and split scenarios.',
-        technique='Lean 4 proof (loops = any/all spec, permutation invariance, heap-model split) + source translator (MultiShapeBase member loops regenerated as Lean and proved equal to the model) + exhaustive/random differential correspondence against real multi-shapes',
+        technique='Lean 4 proof (loops = any/all spec, permutation invariance, heap-model split) + source translator (MultiShapeBase member loops, bounds and split regenerated as Lean and proved equal to the model; composed with the translated time gates) + exhaustive/random differential correspondence against real multi-shapes',
         design='§6 C04'),
     'C05': dict(
         text='Lean 4 theorems for every assignment of time bounds and every spatial relation: intersects / contains / `in` equal temporal && '
@@ -81,7 +81,7 @@ CHECKS = {
              'Rt.Lawful; json.dumps/loads exercised, not modelled; curved outlines enter as the vertex lists the implementation draws (C03) - '
              'their closure/orientation is judged exactly on the emitted floats, not proved; rings crossing the antimeridian and M values '
              'are outside; zero-area holes are the stated excluded class; the multi-polygon round trip is proved for non-GeoRing members.',
-        technique='Lean 4 proof (export/import model with the document-after-the-call explicit; dict algebra, shoelace identity, induction over members) + differential correspondence + independent RFC 7946 / == oracles',
+        technique='Lean 4 proof (export/import model with the document-after-the-call explicit; dict algebra, shoelace identity, induction over members) + source translator (ring orientation, to_geo_interface of all kinds, to_geojson with its time fields and the six from_geojson importers regenerated as Lean and proved equal to the model; source-to-source round trip) + differential correspondence + independent RFC 7946 / == oracles',
         design='§6 C14'),
     'C17': dict(
         text='Lean 4 theorems over an executable model of Track. The ordering invariant track_sorted holds for every input list and every '
@@ -94,7 +94,7 @@ CHECKS = {
         note='Centroid distances are parameters measured on the implementation; speeds are compared exactly and limits generated only where '
              'float and exact comparison agree (NaN not modelled); for filter_by_time only order and class preservation are claimed. '
              'Trusted: Lean kernel, Mathlib, CPython datetime and float semantics, the harness abstraction.',
-        technique='Lean 4 proof (invariant by induction over operation lists; loop refinement to structural recursion) + source translator (Track.__getitem__ and has_duplicate_timestamps regenerated as Lean and proved equal to the model) + exhaustive/random differential correspondence against Track + independent Python spec',
+        technique='Lean 4 proof (invariant by induction over operation lists; loop refinement to structural recursion) + source translator (Track.__init__, __getitem__, has_duplicate_timestamps, convolve_duplicate_timestamps, filter_by_time, filter_impossible_journeys and the derived views regenerated as Lean and proved equal to the model) + exhaustive/random differential correspondence against Track + independent Python spec',
         design='§6 C17'),
     'C18': dict(
         text='Lean 4 theorems for every per-shape predicate and both collection classes. Each filter equals List.filter p re-wrapped in the '
@@ -189,7 +189,7 @@ CHECKS = {
         note='Trusted: Lean kernel and Mathlib; floats as exact rationals (no NaN); dyadic grids so the orientation test is exact; CPython hash is a '
              'function of value and a frozenset hash a function of the multiset of element hashes; vertices of curved holes and wedge centroids '
              'enter as data; hole objects shared by copy() are treated as immutable values (I8).',
-        technique='Lean 4 proof (equivalence, eq => hash, frame/separation invariants over a heap) + exhaustive/random differential correspondence + independent canonical-form oracle',
+        technique='Lean 4 proof (equivalence, eq => hash, frame/separation invariants over a heap) + source translator (every __eq__ / __hash__ of the coordinate, shape and multi-shape classes regenerated as Lean and proved equal to the model) + exhaustive/random differential correspondence + independent canonical-form oracle',
         design='§6 C15'),
     'C16': dict(
         text='Lean 4 theorems over a state machine (heap of property/hole/vertex cells, memo slots stamped with their inputs, reads, the four API '
@@ -237,7 +237,7 @@ CHECKS = {
              'only their observable result on generated and corrupted texts is compared; shapely/GEOS decides what is malformed (np- support '
              'streams only). Excluded by the decidable well-formedness hypothesis and shown necessary by counter-theorems: zero-area holes, '
              'M without Z, mixed 2-D/3-D vertices.',
-        technique='Lean 4 proof (structural induction, shoelace-reversal lemma, lexer/parser inversion) + exhaustive single-character-corruption and seeded differential correspondence + exact-rational oracle + shapely as independent reader',
+        technique='Lean 4 proof (structural induction, shoelace-reversal lemma, lexer/parser inversion) + source translator (every to_wkt writer, linear_rings and the hand-written reader logic regenerated as Lean string functions and proved equal to the model) + exhaustive single-character-corruption and seeded differential correspondence + exact-rational oracle + shapely as independent reader',
         design='§6 C13'),
     'C06': dict(
         text='Lean 4 theorems: every TimeInterval operator of the model equals the dense-time set model '
